@@ -162,30 +162,34 @@ theorem afterVm_sync {s : St} (vm vm' : Vm) (infos : List MatchInfo) (hs : s.des
     · have : vm'.stack.items.length > vm.stack.items.length := by omega
       simp [this, hs, hd]
 
+theorem startTagCore_sync {s : St} (h : Sync s) (name : LocalName) (ns : Model.Ns) : Sync (startTagCore s name ns).1 := by
+  unfold startTagCore
+  split
+  · exact h
+  · rename_i vm hv
+    have hs : s.descs.length = vm.stack.items.length := by simpa [Sync, hv] using h
+    split
+    · exact h
+    · rename_i vm' infos he
+      rcases execForStartTag_shape _ _ _ _ he with ⟨vm2, ms, ho, hd⟩ | ⟨vm1, req, ho, _⟩
+      · cases ho
+        dsimp only
+        rcases afterVm_sync vm vm' infos hs hd with h1 | h1
+        · split <;> exact h1
+        · split <;> (rw [h1]; exact h)
+      · cases ho
+    · rename_i vm' req he
+      rcases execForStartTag_shape _ _ _ _ he with ⟨vm2, ms, ho, hd⟩ | ⟨vm1, req', ho, hl⟩
+      · cases ho
+      · cases ho
+        simp only [Sync]
+        rw [hl]; exact hs
+
 theorem startTag_sync {s : St} (h : Sync s) (name : LocalName) (ns : Model.Ns) : Sync (startTag s name ns).1 := by
   unfold startTag
   split
   · exact h
-  · split
-    · exact h
-    · rename_i vm hv
-      have hs : s.descs.length = vm.stack.items.length := by simpa [Sync, hv] using h
-      split
-      · exact h
-      · rename_i vm' infos he
-        rcases execForStartTag_shape _ _ _ _ he with ⟨vm2, ms, ho, hd⟩ | ⟨vm1, req, ho, _⟩
-        · cases ho
-          dsimp only
-          rcases afterVm_sync vm vm' infos hs hd with h1 | h1
-          · split <;> exact h1
-          · split <;> (rw [h1]; exact h)
-        · cases ho
-      · rename_i vm' req he
-        rcases execForStartTag_shape _ _ _ _ he with ⟨vm2, ms, ho, hd⟩ | ⟨vm1, req', ho, hl⟩
-        · cases ho
-        · cases ho
-          simp only [Sync]
-          rw [hl]; exact hs
+  · exact startTagCore_sync (s := { s with ord := s.ord + 1 }) (by unfold Sync at *; exact h) name ns
 
 theorem auxInfo_sync {s : St} (h : Sync s) (info : AuxInfo) : Sync (auxInfo s info).1 := by
   unfold auxInfo
@@ -252,15 +256,18 @@ theorem currentElementData_some {s : St} (h : s.currentElementData.isSome) : s.d
       intro hn; rw [hn] at hde; simp at hde
     · simp at h
 
-theorem writeBack_length (descs : List Desc) (d : Option ElementDescriptor) (h : d.isSome → descs ≠ []) :
+theorem writeBack_length (descs : List Desc) (d : Option ElementDescriptor) :
     (writeBack descs d).length = descs.length := by
   cases d with
   | none => rfl
   | some x =>
-    have := h rfl
-    simp only [writeBack, List.length_append, List.length_dropLast, List.length_singleton]
-    have : 0 < descs.length := List.length_pos_iff.2 this
-    omega
+    cases hl : descs.getLast? with
+    | none => simp [writeBack, hl]
+    | some top =>
+      have hne : descs ≠ [] := by intro hn; rw [hn] at hl; simp at hl
+      have : 0 < descs.length := List.length_pos_iff.2 hne
+      simp only [writeBack, hl, List.length_append, List.length_dropLast, List.length_singleton]
+      omega
 
 variable {cfg : Cfg}
 
@@ -291,8 +298,7 @@ theorem token_sync {s : St} (h : Sync s) (t : Model.Token) : Sync (token cfg s t
             · exact frame _ fv fd
             · rename_i d desc _ hh
               have hs1 : Sync r.1 := frame _ fv fd
-              have hwb : (writeBack r.1.descs desc).length = r.1.descs.length :=
-                writeBack_length _ _ (fun hd => currentElementData_some (handleStartTag_desc_some _ _ _ hh hd))
+              have hwb : (writeBack r.1.descs desc).length = r.1.descs.length := writeBack_length _ _
               unfold Sync at hs1 ⊢
               dsimp only
               split
